@@ -32,7 +32,7 @@ func (c11) Cases(tier string) int {
 }
 
 func (c11) Rule() string {
-	return "one plan (planned once through GetPlans, also taken from an AutomaticQueryPlanCache) executed 8 (quick) / 32 (thorough) times concurrently and 3 times sequentially, each execution with its own variable values (argument ids, @include flags; for operations whose variables have defaults some requests send no variables at all or only some) and its own context value; built with -race; checked: a deep structural print of the plan (step queries, selection sets, fragment definitions, variables, insertion points, scrub table) is identical before and after; every outbound call carries only the variables of the request whose context it carries, with that request's values; every response equals a freshly planned solitary execution of the same request and the Lean monolith; non-trivial = the plan has at least one dependent step and a variable used in it; distinct = distinct (query, variable assignment)"
+	return "one plan (planned once through GetPlans, also taken from an AutomaticQueryPlanCache) executed 8 (quick) / 32 (thorough) times concurrently and 3 times sequentially, each execution with its own variable values (argument ids, @include flags; for operations whose variables have defaults some requests send no variables at all or only some) and its own context value; built with -race; checked: a deep structural print of the plan (step queries, selection sets, fragment definitions, variables, insertion points, scrub table) is identical before and after; every outbound call carries only the variables of the request whose context it carries, with that request's values; every response equals a freshly planned solitary execution of the same request and the Lean monolith; on the caching gateway a sequence of hash-less requests whose texts differ only in significant white space is answered like by a gateway that has seen nothing else; non-trivial = the plan has at least one dependent step and a variable used in it; distinct = distinct (query, variable assignment)"
 }
 
 var c11Queries = []string{
@@ -235,6 +235,24 @@ func (c11) Run(c *Ctx, i int) CaseResult {
 		if perReq[k] != reqs[k].calls {
 			bad("L0.own-calls", fmt.Sprintf("request %d (variables %v) made %d outbound calls under its own context, its solitary execution makes %d: its calls were not all made for it", k, reqs[k].vars, perReq[k], reqs[k].calls), reqs[k].calls, perReq[k])
 			break
+		}
+	}
+	if len(res.Fails) == 0 && cachedPlan {
+		// requests without a persisted-query hash whose texts differ only in significant white space: each gets the
+		// answer a gateway that has seen nothing else gives
+		pr := NearTexts[i%len(NearTexts)]
+		for k, text := range []string{pr[0], pr[1], pr[0]} {
+			o := f.Run(text, "", nil, 5*time.Second)
+			fresh, err := NewFed(FixedFed(), store)
+			if err != nil {
+				break
+			}
+			w := fresh.Run(text, "", nil, 5*time.Second)
+			if Canon(o.Data)+"|"+fmt.Sprint(errMultiset(o.Err)) != Canon(w.Data)+"|"+fmt.Sprint(errMultiset(w.Err)) {
+				bad("L0.isolation", fmt.Sprintf("request %d of a sequence of hash-less requests (texts that differ in white space inside a comment or a string) is answered differently from a gateway that has seen nothing else: %q", k, text),
+					map[string]interface{}{"data": w.Data, "error": ErrString(w.Err)}, map[string]interface{}{"data": o.Data, "error": ErrString(o.Err)})
+				break
+			}
 		}
 	}
 	if len(res.Fails) == 0 {
